@@ -120,5 +120,12 @@ func (b *B) ReportAllocs()            {}
 func (b *B) SetBytes(n int64)         {}
 func (b *B) Run(string, func(*B)) bool { return true }
 
+// PB exists so that parallel benchmarks compile.
+type PB struct{}
+
+func (pb *PB) Next() bool { return false }
+
+func (b *B) RunParallel(func(*PB)) {}
+
 func Short() bool   { return false }
 func Verbose() bool { return false }
